@@ -17,7 +17,9 @@ MARK = "# static analysis: ignore"
 
 # fragments: (expression or statement text, kind, diagnostic code)
 EXPR_FRAGS = [('"%s x" % a', "use_fstrings"), ('"%d %s" % (a, b)', "use_fstrings"), ('"{a} x"', "missing_f"), ('"%s" % (a,)', "use_fstrings"), ('"x %s y %s" % (b, a)', "use_fstrings"),
-              ("g3(a, b, 3)", "too_many_positional_args"), ("g3po(a, b, 3)", "too_many_positional_args")]
+              ("g3(a, b, 3)", "too_many_positional_args"), ("g3po(a, b, 3)", "too_many_positional_args"),
+              # equal arguments, equal literals: a fix that maps arguments to parameter names must keep them apart
+              ("g3(a, a, 3)", "too_many_positional_args"), ("g3(1, 1, 1)", "too_many_positional_args"), ("g3(b, a, a)", "too_many_positional_args")]
 SHAPES = ["return {e}", "v = {{**d, 'k': {e}}}\n    return v", "def inner(*, p={e}, q):\n        return (p, q)\n    return inner(q=1)", "return h({e}, *t, **d)",
           "return [{e} for _ in t]", "w = lambda: {e}\n    return w()", "return h(\n        {e},\n        b,\n    )", "v = {e}\n    return v", "return ({e}, {e})",
           "if a:\n        return {e}\n    return None", "try:\n        return {e}\n    finally:\n        pass", "return {{'k': {e}, **d}}", "x = 1\n    return {e}",
@@ -27,6 +29,16 @@ STMT_PROGS = [
     ("def f(a, b, d, t):\n    x, y = a, b\n    return x\n", "unused_variable"),
     ("def f(a, b, d, t):\n    return [b for unused in t]\n", "unused_variable"),
     ("def f(a, b, d, t):\n    u1 = a; u2 = b\n    return 1\n", "unused_variable"),
+    # chained / augmented / annotated / walrus assignments where only some of the names are unused
+    ("def f(a, b, d, t):\n    y = z = a\n    return z\n", "unused_variable"),
+    ("def f(a, b, d, t):\n    z = y = a\n    return z\n", "unused_variable"),
+    ("def f(a, b, d, t):\n    y = z = w = b\n    return (z, w)\n", "unused_variable"),
+    ("def f(a, b, d, t):\n    y: int = a\n    return b\n", "unused_variable"),
+    ("def f(a, b, d, t):\n    z = (y := a)\n    return z\n", "unused_variable"),
+    ("def f(a, b, d, t):\n    y = h(a)\n    return b\n", "unused_variable"),
+    ("def f(a, b, d, t):\n    if a:\n        unused = b\n    return a\n", "unused_variable"),
+    ("def f(a, b, d, t):\n    for unused in t:\n        pass\n    return a\n", "unused_variable"),
+    ("def f(a, b, d, t):\n    with open('/dev/null') as unused:\n        return a\n", "unused_variable"),
     ("def f(a, b, d, t):\n    return a  " + MARK + "[undefined_name]\n", "unused_ignore"),
     ("def f(a, b, d, t):\n    " + MARK + "[undefined_name]\n    return a\n", "unused_ignore"),
     ("def f(a, b, d, t):\n    return a  " + MARK + "\n", "unused_ignore"),
@@ -228,7 +240,7 @@ def _fix(res, tier, lo, hi):
 
 def _shape_of(src):
     body = src[len(PRE):] if src.startswith(PRE) else src
-    for key, name in (("@dec", "decorator"), ("g3po", "posonly-callee"), ("**d, 'k'", "dict-unpack-first"), ("'k': ", "dict-unpack-last"), ("def inner(*", "kwonly-default"), ("*t, **d", "star-call"), ("for _ in t", "comprehension"), ("lambda", "lambda"),
+    for key, name in ((":=", "walrus"), ("if a:\n        unused", "sole-statement-of-block"), (" = z = ", "chained-assignment"), ("z = y = ", "chained-assignment"), ("@dec", "decorator"), ("g3po", "posonly-callee"), ("**d, 'k'", "dict-unpack-first"), ("'k': ", "dict-unpack-last"), ("def inner(*", "kwonly-default"), ("*t, **d", "star-call"), ("for _ in t", "comprehension"), ("lambda", "lambda"),
                       ("h(\n", "multiline-call"), ("@dec", "decorator"), ("g3po", "posonly-callee"), ("class K", "class-attr"), ("assert", "assert-msg"), ("finally", "try-finally"), ("if a:", "if"), ("({", "tuple-two"), ("; ", "two-per-line"), (MARK, "ignore-comment"), ("v0 = ", "two-fixes")):
         if key in body:
             return name
@@ -236,10 +248,11 @@ def _shape_of(src):
 
 
 def _parses(s):
+    """valid code = accepted by the compiler (ast.parse alone accepts e.g. a repeated keyword argument)"""
     try:
-        ast.parse(s)
+        compile(s, "<c16>", "exec")
         return True
-    except SyntaxError:
+    except (SyntaxError, ValueError):
         return False
 
 
